@@ -365,6 +365,7 @@ fn damage(bytes: &[u8], kind: usize, final_xref: usize) -> Vec<u8> {
 }
 
 pub fn run(rep: &mut Report) {
+    crate::util::tune_malloc();
     let thorough = rep.tier.is_thorough();
     let k = if thorough { 3 } else { 2 };
     rep.rule("case = one history (base form, per appended revision: xref form and one operation per tracked object) \
